@@ -258,11 +258,31 @@ func genC18(t *rapid.T) (CaseC18, bool) {
 	defer func() { c06NoSizeClasses = false }()
 	zone := rapid.SampledFrom([]string{"", "America/New_York"}).Draw(t, "zone")
 	c := CaseC18{Zone: zone, Ext: genExtSpec(t), Inherit: rapid.Bool().Draw(t, "inherit")}
+	if rapid.IntRange(0, 3).Draw(t, "preferNyctTrips") == 0 {
+		c.Ext = ExtSpec{Kind: "nycttrips", Trips: rgen.NyctTripsOpts{FilterStale: rapid.Bool().Draw(t, "filter2"), PreserveM: rapid.Bool().Draw(t, "preserveM2")}}
+	}
 	nRT := rapid.IntRange(1, 3).Draw(t, "nRealtime")
+	if c.Ext.Kind == "nycttrips" {
+		nRT = max(nRT, 2)
+		if rapid.IntRange(0, 3).Draw(t, "filterStale") != 0 {
+			c.Ext.Trips.FilterStale = true
+		}
+	}
 	for i := 0; i < nRT; i++ {
 		m, _, _, modelOK := genC06MsgModel(t, zone, c.Ext)
 		c.RT = append(c.RT, m)
 		c.Model = append(c.Model, modelOK)
+	}
+	if c.Ext.Kind == "nycttrips" && len(c.RT) >= 2 && rapid.Bool().Draw(t, "mixedHeaderTimestamps") {
+		// one feed without a header timestamp next to feeds with one, and trips whose first stop time lies between: what the
+		// stale filter decides for the feed without a timestamp must not depend on the feeds parsed next to it
+		c.RT[0].Timestamp = nil
+		c.RT[1].Timestamp = rgen.P(uint64(1_700_003_600))
+		for i := range c.RT[0].Entities {
+			if tu := c.RT[0].Entities[i].TU; tu != nil && tu.Trip.Nyct != nil && len(tu.STUs) > 0 && rapid.Bool().Draw(t, "firstStopBefore") {
+				tu.STUs[0].Dep = &rgen.Event{Time: rgen.P(int64(1_700_000_000 + rapid.IntRange(-100, 100).Draw(t, "firstStopOffset")))}
+			}
+		}
 	}
 	nSt := rapid.IntRange(0, 3).Draw(t, "nStatic")
 	staticHeavy := rapid.IntRange(0, 3).Draw(t, "staticHeavy") == 0 // mostly archives, in different agency time zones
